@@ -74,23 +74,25 @@ def run(tier, seed, ck=None):
     for (oid, desc, g), a in zip(goals, ans):
         if a != 'sat':
             continue
-        # counterexample-guided refinement of the From UF with its true values
+        # FromMontgomery is a bijection of [0,n) (proved), so the VALUES the solver chose for value(s), value(t) are
+        # realisable: replay them through the public API.  Fall back to refining the UF with true values of the model's limbs.
         facts, found = [], False
-        for rnd in range(8):
-            m, _ = smt.get_model(pre + '\n' + '\n'.join(facts) + '\n' + g, sn + tn, timeout=60)
+        for rnd in range(6):
+            q = pre + '\n(declare-const vsv (_ BitVec 256))(declare-const vtv (_ BitVec 256))(assert (= vsv vs))(assert (= vtv vt))\n' + '\n'.join(facts) + '\n' + g
+            m, _ = smt.get_model(q, ['vsv', 'vtv'] + sn + tn, timeout=60)
             if not m:
                 break
+            cands = [(m['vsv'] % N, m['vtv'] % N)]
             S = unlimbs([m[x] for x in sn]); T = unlimbs([m[x] for x in tn])
-            a_, b_ = real_from(S), real_from(T)
+            cands.append((real_from(S), real_from(T)))
             kind = {'C13.lessorequal': 'lessorequal'}.get(oid, 'equal')
-            path = ck.save_replay({'property': 'C13', 'cases': [{'kind': kind, 'a': '%064x' % a_, 'b': '%064x' % b_}], 'obligation': oid})
+            path = ck.save_replay({'property': 'C13', 'cases': [{'kind': kind, 'a': '%064x' % a_, 'b': '%064x' % b_} for a_, b_ in cands], 'obligation': oid})
             ok, out = core.go_test(path)
             if not ok and 'MISMATCH' in out:
                 ck.violation(oid.split('.')[1], '%s fails: %s' % (desc, [l.strip() for l in out.splitlines() if 'MISMATCH' in l][:1]), path)
                 found = True
                 break
-            facts.append('(assert (= (%s %s) %s))' % (mu.frm, bvconst256(S), bvconst256(a_)))
-            facts.append('(assert (= (%s %s) %s))' % (mu.frm, bvconst256(T), bvconst256(b_)))
+            facts.append('(assert (not (and (= vsv %s) (= vtv %s))))' % (bvconst256(m['vsv']), bvconst256(m['vtv'])))
         if not found:
             ck.inconclusive.append('%s: solver counterexamples did not reproduce on the real code' % oid)
 
